@@ -6,6 +6,9 @@ import Mathlib.MeasureTheory.Measure.Prod
 import Mathlib.MeasureTheory.Measure.WithDensity
 import Mathlib.MeasureTheory.Constructions.Pi
 import Mathlib.MeasureTheory.Measure.Lebesgue.Basic
+import Mathlib.Probability.Distributions.Gaussian.Real
+import Mathlib.MeasureTheory.Integral.Pi
+import Mathlib.Probability.Kernel.Composition.MeasureCompProd
 
 /-!
 # C02 — Metropolis–Hastings kernels with densities on general measurable spaces (helpers)
@@ -66,6 +69,43 @@ noncomputable def mhKernelD (lam : Measure X) [SFinite lam] (π : X → ℝ) (q 
 noncomputable def mhKernelR (ρ : ProbabilityTheory.Kernel X X) [IsSFiniteKernel ρ] (π : X → ℝ)
     (q : X → X → ℝ) : ProbabilityTheory.Kernel X X :=
   accKernelR ρ q (mhAlphaD π q)
+
+instance (ρ : ProbabilityTheory.Kernel X X) [IsSFiniteKernel ρ] (q a : X → X → ℝ) :
+    IsSFiniteKernel (accKernelR ρ q a) := by
+  unfold accKernelR
+  have h1 : IsSFiniteKernel (ρ.withDensity (moveDens q a)) :=
+    ProbabilityTheory.Kernel.IsSFiniteKernel.withDensity _ (fun _ _ => ENNReal.ofReal_ne_top)
+  have h2 : IsSFiniteKernel ((ProbabilityTheory.Kernel.id : ProbabilityTheory.Kernel X X).withDensity
+      (fun x _ => rejProbR ρ q a x)) :=
+    ProbabilityTheory.Kernel.IsSFiniteKernel.withDensity _
+      (fun x _ => ne_top_of_le_ne_top ENNReal.one_ne_top tsub_le_self)
+  infer_instance
+
+instance (lam : Measure X) [SFinite lam] (q a : X → X → ℝ) : IsSFiniteKernel (accKernel lam q a) := by
+  unfold accKernel; infer_instance
+
+instance (lam : Measure X) [SFinite lam] (π : X → ℝ) (q : X → X → ℝ) :
+    IsSFiniteKernel (mhKernelD lam π q) := by unfold mhKernelD; infer_instance
+
+instance (ρ : ProbabilityTheory.Kernel X X) [IsSFiniteKernel ρ] (π : X → ℝ) (q : X → X → ℝ) :
+    IsSFiniteKernel (mhKernelR ρ π q) := by unfold mhKernelR; infer_instance
+
+/-- Barker's acceptance probability `π(y)q(y,x) / (π(x)q(x,y) + π(y)q(y,x))` -/
+noncomputable def barkerAlpha (π : X → ℝ) (q : X → X → ℝ) (x y : X) : ℝ :=
+  π y * q y x / (π x * q x y + π y * q y x)
+
+lemma measurable_barkerAlpha {π : X → ℝ} {q : X → X → ℝ} (hπ : Measurable π)
+    (hq : Measurable (Function.uncurry q)) : Measurable (Function.uncurry (barkerAlpha π q)) := by
+  have hswap : Measurable (fun p : X × X => q p.2 p.1) := hq.comp measurable_swap
+  exact ((hπ.comp measurable_snd).mul hswap).div
+    (((hπ.comp measurable_fst).mul hq).add ((hπ.comp measurable_snd).mul hswap))
+
+omit [MeasurableSpace X] in
+lemma barkerAlpha_balance (π : X → ℝ) (q : X → X → ℝ) (x y : X) :
+    π x * q x y * barkerAlpha π q x y = π y * q y x * barkerAlpha π q y x := by
+  unfold barkerAlpha
+  rw [add_comm (π y * q y x)]
+  ring
 
 /-- the reference pair `(lam, ρ)` is symmetric: `lam(dx) ρ(x,dy)` is invariant under `(x,y) ↦ (y,x)` -/
 def SymmRef (lam : Measure X) (ρ : ProbabilityTheory.Kernel X X) : Prop :=
@@ -361,6 +401,31 @@ lemma symmRef_pull (e : X ≃ᵐ W) {lamW : Measure W} {ρ : ProbabilityTheory.K
 
 end transport
 
+/-! ### a proposal kernel that is reversible w.r.t. the reference measure is a symmetric reference -/
+
+section reversibleRef
+
+/-- set-level reversibility of a Markov kernel w.r.t. a finite measure extends to all measurable
+    functions on the product (π-λ theorem: `Measure.ext_prod`) -/
+lemma symmRef_of_isReversible {lam : Measure X} [IsFiniteMeasure lam] {ρ : ProbabilityTheory.Kernel X X}
+    [IsMarkovKernel ρ] (h : ρ.IsReversible lam) : SymmRef lam ρ := by
+  have hμ : lam ⊗ₘ ρ = (lam ⊗ₘ ρ).map Prod.swap := by
+    apply Measure.ext_prod
+    intro s t hs ht
+    rw [Measure.map_apply measurable_swap (hs.prod ht), Set.preimage_swap_prod,
+      Measure.compProd_apply_prod hs ht, Measure.compProd_apply_prod ht hs]
+    exact h hs ht
+  intro G hG
+  have hG' : Measurable (Function.uncurry (fun x y => G y x)) := hG.comp measurable_swap
+  have e1 := Measure.lintegral_compProd (μ := lam) (κ := ρ) hG
+  have e2 := Measure.lintegral_compProd (μ := lam) (κ := ρ) hG'
+  simp only [Function.uncurry_apply_pair] at e1 e2
+  rw [← e1, ← e2, hμ, lintegral_map hG measurable_swap]
+  rw [← hμ]
+  rfl
+
+end reversibleRef
+
 end general
 
 /-! ### single-coordinate updates on `ℝ^(n+1)` -/
@@ -406,6 +471,197 @@ noncomputable def cwKernel (j : Fin (n + 1)) (π : (Fin (n + 1) → ℝ) → ℝ
     ProbabilityTheory.Kernel (Fin (n + 1) → ℝ) (Fin (n + 1) → ℝ) :=
   mhKernelR (coordRef j) π q
 
+instance (j : Fin (n + 1)) (π : (Fin (n + 1) → ℝ) → ℝ)
+    (q : (Fin (n + 1) → ℝ) → (Fin (n + 1) → ℝ) → ℝ) : IsSFiniteKernel (cwKernel j π q) := by
+  unfold cwKernel; infer_instance
+
 end coord
+
+/-! ### Gaussian random-walk proposals (what `MH` / `CWMH` of CUQIpy use: `x + s·ξ`, `ξ ~ N(0, I)`) -/
+
+section gauss
+open scoped NNReal
+
+lemma gaussianPDFReal_symm (a b : ℝ) (v : ℝ≥0) : gaussianPDFReal a v b = gaussianPDFReal b v a := by
+  unfold gaussianPDFReal
+  rw [show (b - a) ^ 2 = (a - b) ^ 2 by ring]
+
+lemma measurable_gaussianPDFReal_uncurry (v : ℝ≥0) :
+    Measurable (fun p : ℝ × ℝ => gaussianPDFReal p.1 v p.2) := by
+  unfold gaussianPDFReal
+  fun_prop
+
+variable {n : ℕ}
+
+/-- density of the proposal `y_j = x_j + s ξ`, `ξ ~ N(0,1)`, `v = s²`, in the updated coordinate -/
+noncomputable def rwCoordDens (j : Fin (n + 1)) (v : ℝ≥0) (x y : Fin (n + 1) → ℝ) : ℝ :=
+  gaussianPDFReal (x j) v (y j)
+
+lemma measurable_rwCoordDens (j : Fin (n + 1)) (v : ℝ≥0) :
+    Measurable (Function.uncurry (rwCoordDens j v)) := by
+  show Measurable (fun p : (Fin (n + 1) → ℝ) × (Fin (n + 1) → ℝ) => gaussianPDFReal (p.1 j) v (p.2 j))
+  unfold gaussianPDFReal
+  fun_prop
+
+lemma rwCoordDens_nonneg (j : Fin (n + 1)) (v : ℝ≥0) (x y : Fin (n + 1) → ℝ) : 0 ≤ rwCoordDens j v x y :=
+  gaussianPDFReal_nonneg _ _ _
+
+lemma rwCoordDens_symm (j : Fin (n + 1)) (v : ℝ≥0) (x y : Fin (n + 1) → ℝ) :
+    rwCoordDens j v x y = rwCoordDens j v y x := gaussianPDFReal_symm _ _ _
+
+lemma rwCoordDens_pos (j : Fin (n + 1)) {v : ℝ≥0} (hv : v ≠ 0) (x y : Fin (n + 1) → ℝ) :
+    0 < rwCoordDens j v x y := gaussianPDFReal_pos _ _ _ hv
+
+lemma lintegral_rwCoordDens (j : Fin (n + 1)) {v : ℝ≥0} (hv : v ≠ 0) (x : Fin (n + 1) → ℝ) :
+    ∫⁻ t, ENNReal.ofReal (rwCoordDens j v x (Function.update x j t)) = 1 := by
+  unfold rwCoordDens
+  simp only [Function.update_self]
+  exact lintegral_gaussianPDFReal_eq_one (x j) hv
+
+variable {ι : Type*} [Fintype ι]
+
+/-- density of `y = x + s ξ`, `ξ ~ N(0, I)`, `v = s²`, on `ℝ^ι` w.r.t. Lebesgue measure -/
+noncomputable def rwDens (v : ℝ≥0) (x y : ι → ℝ) : ℝ := ∏ i, gaussianPDFReal (x i) v (y i)
+
+lemma measurable_rwDens (v : ℝ≥0) : Measurable (Function.uncurry (rwDens (ι := ι) v)) := by
+  show Measurable (fun p : (ι → ℝ) × (ι → ℝ) => ∏ i, gaussianPDFReal (p.1 i) v (p.2 i))
+  unfold gaussianPDFReal
+  fun_prop
+
+lemma rwDens_nonneg (v : ℝ≥0) (x y : ι → ℝ) : 0 ≤ rwDens v x y :=
+  Finset.prod_nonneg (fun _ _ => gaussianPDFReal_nonneg _ _ _)
+
+lemma rwDens_pos {v : ℝ≥0} (hv : v ≠ 0) (x y : ι → ℝ) : 0 < rwDens v x y :=
+  Finset.prod_pos (fun _ _ => gaussianPDFReal_pos _ _ _ hv)
+
+lemma rwDens_symm (v : ℝ≥0) (x y : ι → ℝ) : rwDens v x y = rwDens v y x :=
+  Finset.prod_congr rfl (fun _ _ => gaussianPDFReal_symm _ _ _)
+
+lemma lintegral_rwDens {v : ℝ≥0} (hv : v ≠ 0) (x : ι → ℝ) :
+    ∫⁻ y, ENNReal.ofReal (rwDens v x y) = 1 := by
+  unfold rwDens
+  have hint : Integrable (fun y : ι → ℝ => ∏ i, gaussianPDFReal (x i) v (y i)) volume :=
+    Integrable.fintype_prod (fun i => integrable_gaussianPDFReal (x i) v)
+  rw [← ofReal_integral_eq_lintegral_ofReal hint
+    (ae_of_all _ (fun y => Finset.prod_nonneg (fun _ _ => gaussianPDFReal_nonneg _ _ _))),
+    integral_fintype_prod_volume_eq_prod]
+  simp [integral_gaussianPDFReal_eq_one _ hv]
+
+end gauss
+
+/-! ### the pCN proposal in one dimension: `Q(x,·) = N(a x, v)`, `a² + v = 1`, prior `N(0,1)` -/
+
+section pcn1
+open scoped NNReal
+
+/-- density of the pCN proposal `y = a·x + s·ξ`, `ξ ~ N(0,1)`, `v = s²` -/
+noncomputable def pcnDens1 (a : ℝ) (v : ℝ≥0) (x y : ℝ) : ℝ := gaussianPDFReal (a * x) v y
+
+lemma measurable_pcnDens1 (a : ℝ) (v : ℝ≥0) : Measurable (Function.uncurry (pcnDens1 a v)) := by
+  show Measurable (fun p : ℝ × ℝ => gaussianPDFReal (a * p.1) v p.2)
+  unfold gaussianPDFReal
+  fun_prop
+
+/-- the pCN proposal kernel on `ℝ` (built from its density; `pcnProposal1_apply` identifies it) -/
+noncomputable def pcnProposal1 (a : ℝ) (v : ℝ≥0) : ProbabilityTheory.Kernel ℝ ℝ :=
+  accKernel volume (pcnDens1 a v) (fun _ _ => 1)
+
+instance (a : ℝ) (v : ℝ≥0) : IsSFiniteKernel (pcnProposal1 a v) := by unfold pcnProposal1; infer_instance
+
+lemma pcnProposal1_apply (a : ℝ) {v : ℝ≥0} (hv : v ≠ 0) (x : ℝ) :
+    pcnProposal1 a v x = gaussianReal (a * x) v := by
+  ext B hB
+  unfold pcnProposal1
+  rw [accKernel_apply volume (measurable_pcnDens1 a v) measurable_const x hB, gaussianReal_apply _ hv]
+  have h1 : rejProb volume (pcnDens1 a v) (fun _ _ => 1) x = 0 := by
+    unfold rejProb moveDens pcnDens1
+    simp only [mul_one]
+    rw [lintegral_gaussianPDFReal_eq_one _ hv, tsub_self]
+  rw [h1, zero_mul, add_zero]
+  unfold moveDens pcnDens1 gaussianPDF
+  simp only [mul_one]
+
+instance (a : ℝ) {v : ℝ≥0} [hv : Fact (v ≠ 0)] : IsMarkovKernel (pcnProposal1 a v) :=
+  ⟨fun x => by rw [pcnProposal1_apply a hv.out x]; infer_instance⟩
+
+lemma targetMeasure_gaussian : targetMeasure volume (gaussianPDFReal 0 1) = gaussianReal 0 1 := by
+  rw [gaussianReal_of_var_ne_zero 0 one_ne_zero]
+  rfl
+
+/-- pointwise form of `pcn_ratio` in one dimension -/
+lemma pcnDens1_balance (a : ℝ) {v : ℝ≥0} (hv : v ≠ 0) (h : a ^ 2 + (v : ℝ) = 1) (x y : ℝ) :
+    gaussianPDFReal 0 1 x * pcnDens1 a v x y * 1 = gaussianPDFReal 0 1 y * pcnDens1 a v y x * 1 := by
+  have hv' : (v : ℝ) ≠ 0 := by exact_mod_cast hv
+  unfold pcnDens1 gaussianPDFReal
+  simp only [mul_one, NNReal.coe_one, sub_zero]
+  rw [mul_mul_mul_comm, mul_mul_mul_comm _ (Real.exp _), ← Real.exp_add, ← Real.exp_add]
+  congr 2
+  have hv1 : (v : ℝ) = 1 - a ^ 2 := by linarith
+  field_simp
+  rw [hv1]
+  ring
+
+lemma pcnProposal1_isReversible (a : ℝ) {v : ℝ≥0} (hv : v ≠ 0) (h : a ^ 2 + (v : ℝ) = 1) :
+    (pcnProposal1 a v).IsReversible (gaussianReal 0 1) := by
+  rw [← targetMeasure_gaussian]
+  exact accKernel_isReversible' volume (measurable_gaussianPDFReal 0 1) (measurable_pcnDens1 a v)
+    measurable_const (gaussianPDFReal_nonneg 0 1) (pcnDens1_balance a hv h)
+
+end pcn1
+
+/-! ### Gaussian proposals with a state-dependent mean (MALA: mean `x + (ε/2) g(x)`) -/
+
+section drift
+open scoped NNReal
+variable {ι : Type*} [Fintype ι]
+
+/-- density of `y = m(x) + s ξ`, `ξ ~ N(0, I)`, `v = s²`, on `ℝ^ι` w.r.t. Lebesgue measure -/
+noncomputable def driftDens (v : ℝ≥0) (m : (ι → ℝ) → (ι → ℝ)) (x y : ι → ℝ) : ℝ :=
+  ∏ i, gaussianPDFReal (m x i) v (y i)
+
+lemma measurable_driftDens (v : ℝ≥0) {m : (ι → ℝ) → (ι → ℝ)} (hm : Measurable m) :
+    Measurable (Function.uncurry (driftDens v m)) := by
+  show Measurable (fun p : (ι → ℝ) × (ι → ℝ) => ∏ i, gaussianPDFReal (m p.1 i) v (p.2 i))
+  unfold gaussianPDFReal
+  fun_prop
+
+lemma driftDens_nonneg (v : ℝ≥0) (m : (ι → ℝ) → (ι → ℝ)) (x y : ι → ℝ) : 0 ≤ driftDens v m x y :=
+  Finset.prod_nonneg (fun _ _ => gaussianPDFReal_nonneg _ _ _)
+
+lemma driftDens_pos {v : ℝ≥0} (hv : v ≠ 0) (m : (ι → ℝ) → (ι → ℝ)) (x y : ι → ℝ) :
+    0 < driftDens v m x y :=
+  Finset.prod_pos (fun _ _ => gaussianPDFReal_pos _ _ _ hv)
+
+lemma lintegral_driftDens {v : ℝ≥0} (hv : v ≠ 0) (m : (ι → ℝ) → (ι → ℝ)) (x : ι → ℝ) :
+    ∫⁻ y, ENNReal.ofReal (driftDens v m x y) = 1 := by
+  unfold driftDens
+  have hint : Integrable (fun y : ι → ℝ => ∏ i, gaussianPDFReal (m x i) v (y i)) volume :=
+    Integrable.fintype_prod (fun i => integrable_gaussianPDFReal (m x i) v)
+  rw [← ofReal_integral_eq_lintegral_ofReal hint
+    (ae_of_all _ (fun y => Finset.prod_nonneg (fun _ _ => gaussianPDFReal_nonneg _ _ _))),
+    integral_fintype_prod_volume_eq_prod]
+  simp [integral_gaussianPDFReal_eq_one _ hv]
+
+/-- `log q(x,y) = −(n/2) log(2πv) − |y − m(x)|²/(2v)` (this is `gaussLogPdf v n |y − m(x)|²`) -/
+lemma log_driftDens {v : ℝ≥0} (hv : v ≠ 0) (m : (ι → ℝ) → (ι → ℝ)) (x y : ι → ℝ) :
+    Real.log (driftDens v m x y)
+      = gaussLogPdf v (Fintype.card ι) (∑ i, (y i - m x i) ^ 2) := by
+  have hv' : (0:ℝ) < v := by exact_mod_cast pos_iff_ne_zero.2 hv
+  have hpos : (0:ℝ) < 2 * Real.pi * v := by positivity
+  unfold driftDens gaussLogPdf
+  rw [Real.log_prod (fun i _ => (gaussianPDFReal_pos _ _ _ hv).ne')]
+  have h1 : ∀ i, Real.log (gaussianPDFReal (m x i) v (y i))
+      = -(1 / 2) * Real.log (2 * Real.pi * v) - (y i - m x i) ^ 2 / (2 * v) := by
+    intro i
+    unfold gaussianPDFReal
+    rw [Real.log_mul (inv_ne_zero (Real.sqrt_pos.2 hpos).ne') (Real.exp_pos _).ne', Real.log_exp,
+      Real.log_inv, Real.log_sqrt hpos.le]
+    ring
+  simp_rw [h1]
+  rw [Finset.sum_sub_distrib, Finset.sum_const, Finset.card_univ, ← Finset.sum_div]
+  simp only [nsmul_eq_mul]
+  ring
+
+end drift
 
 end CuqiVerif.C02
